@@ -6,8 +6,9 @@
           the kd-tree (`.kdtree`, `.sampling_resolution`, lazy `.vect`).  Every NBLAST call is compared with the Lean
           definition evaluated on the objects' CURRENT points / tangents / alpha (read back from navis after the call);
           the Lean cache model (`Model/DpCache.lean`, flags from `Gen/DpTree.lean`) replays the same history and says
-          for every kd-tree query whether the answering tree is one of the current geometry — calls it predicts
-          stale are the known `downsample` / `subset` findings, every other call must equal the definition.
+          for every kd-tree query whether the answering tree is one of the current geometry (with the flags of the
+          current source: always — `downsample` / `subset_neuron` reset the tree since a981784 / 757ee4b); every
+          call must equal the definition.
   smart   `nblast_smart` on exact clouds (> 10 points, so the factor-10 pre-NBLAST differs from the full one): every
           cell is the full-definition score where navis' own mask says so and the down-sampled-definition score
           elsewhere; for criterion='score' the mask itself is the documented `pre >= t`.
@@ -21,11 +22,6 @@ import numpy as np
 warnings.filterwarnings('ignore')
 import navis
 from navis.nbl import nblast_funcs as NF
-
-SIG_DS = 'nblast/target-after-downsample/stale-kdtree'
-SIG_SUB = 'nblast/target-after-subset_neuron/stale-kdtree'
-SIG_SMART_T = 'nblast_smart/criterion=score/non-integer-t/truncated-by-int(t)'
-SIG_SMART_LAZY = 'nblast_smart/lazy-tangents/downsample-leaves-stale-kdtree'
 
 KEEPS_TREE_ON_PICKLE = False   # pykdtree trees are dropped by Dotprops.__getstate__
 
@@ -185,7 +181,6 @@ class Hist:
         self.lazy0 = [bool(c.get('k') and c.get('lazy')) for c in case['objs']]
         self.events = []
         self.ver = 0
-        self.cause = {}          # object -> last non-invalidating writer ('downsample' / 'subset')
         self.next_id = 100 + len(self.objs)
 
     # ---- events ------------------------------------------------------------------------------
@@ -195,8 +190,6 @@ class Hist:
     def mutate(self, method, i):
         self.ver += 1
         self.ev(f'm {method} {i} {self.ver}')
-        if method in ('downsample', 'subset'):
-            self.cause[i] = method
 
     def new_obj(self, d, src=None):
         d.id = self.next_id
@@ -385,19 +378,13 @@ def nblast_step(h, st, case):
     except Exception as e:   # noqa
         err = e
     h.events += extra
-    sig = None
-    if stale or stale_lazy:
-        why = h.cause.get((stale + stale_lazy)[0])
-        sig = {'downsample': SIG_DS, 'subset': SIG_SUB}.get(why)
+    sig = None      # no open finding: a stale tree is a violation whatever produced it
+    note = stale or stale_lazy
     ctx.count('hist_nblast', f"{fn}/{mode}/{'stale-predicted' if (stale or stale_lazy) else 'fresh'}/{'raise' if err is not None else 'ok'}")
     where = f"history step {st.get('_n')} ({fn}, scores={mode}, targets {[h.ids[i] for i in (ti or qi)]})"
-    if err is not None and C.units_none_error(err, smat, [h.objs[i] for i in part]):
-        ctx.oracle(False, f'{where}: navis raised {type(err).__name__}: {str(err)[:160]} (a Dotprops without units makes the preflight '
-                          f'`check_microns` fail)', case, signature=C.SIG_UNITS)
-        return
     if err is not None:
         ctx.oracle(False, f'{where}: navis raised {type(err).__name__}: {str(err)[:160]}'
-                          + (f' — the cached kd-tree of object(s) {[h.ids[i] for i in stale + stale_lazy]} was built from earlier coordinates' if sig else ''),
+                          + (f' — the cached kd-tree of object(s) {[h.ids[i] for i in stale + stale_lazy]} was built from earlier coordinates' if note else ''),
                    case, signature=sig)
         return
     # the definition on the CURRENT state
@@ -419,7 +406,7 @@ def nblast_step(h, st, case):
     if verdict != 'OK':
         ctx.oracle(False, f'{where}: scores differ from the definition evaluated on the objects\' CURRENT points/tangents/alpha '
                           f'(normalized={norm}, use_alpha={ua}, limit_dist={cfg["limit_dist"]}): {verdict[:200]}'
-                          + (f' — the cached kd-tree of object(s) {[h.ids[i] for i in stale]} was built from earlier coordinates' if sig else ''),
+                          + (f' — the cached kd-tree of object(s) {[h.ids[i] for i in stale]} was built from earlier coordinates' if note else ''),
                    case, signature=sig)
     else:
         ctx.oracle(True, 'history nblast == definition on the current state', case)
@@ -439,21 +426,21 @@ def case_hist(ctx, case):
             except Exception as e:   # noqa
                 # did the step query a tree the cache model says is stale?
                 i = st.get('i', 0)
-                sig = None
+                sig = False
                 try:
                     lg = h.model([f'u {i}'])[0]
-                    if any(u != c for (u, c) in lg):
-                        sig = {'downsample': SIG_DS, 'subset': SIG_SUB}.get(h.cause.get(i))
+                    sig = any(u != c for (u, c) in lg)
                 except Exception:   # noqa
                     pass
                 ctx.oracle(False, f"history step {n} ({st['op']} on object {h.ids[i] if i < len(h.ids) else i}) raised {type(e).__name__}: {str(e)[:160]}"
-                                  + (' — its cached kd-tree was built from earlier coordinates' if sig else ''), case, signature=sig)
+                                  + (' — its cached kd-tree was built from earlier coordinates' if sig else ''), case)
                 return
             ctx.count('hist_op', f"{st['op']}{'/inplace' if st.get('inplace') else ''}{'' if ok else '/skipped'}")
 
 
 def hist_witnesses():
-    """fixed reproductions of the two stale-kd-tree findings (and of seeded-style in-place arithmetic, which must pass)"""
+    """the histories of the former stale-kd-tree findings (fixed: a981784 / 757ee4b) and seeded-style in-place
+    arithmetic: all must equal the definition on the current state"""
     line = [[float(i), float(i % 3), 0.0] for i in range(30)]
     vx = [[1.0, 0.0, 0.0]] * 30
     al = [1.0] * 30
@@ -465,7 +452,7 @@ def hist_witnesses():
     # target cached, then down-sampled in place, then target again
     yield dict(objs=[q, t], steps=[nb, dict(op='downsample', i=1, f=3, inplace=True), nb], table=tab, witness='downsample-inplace')
     yield dict(objs=[q, t], steps=[nb, dict(op='subset', i=1, every=2, phase=0, inplace=True), nb], table=tab, witness='subset-inplace')
-    # lazy tangents: a single out-of-place downsample leaves a stale tree on the copy
+    # lazy tangents: a single out-of-place downsample used to leave a stale tree on the copy
     tl = dict(id=101, pts=line, vect=vx, alpha=al, k=3, lazy=True)
     tab1 = dict(kind='df', rb=[0.0, 1.0, 4.0, 16.0], rr=True, cb=[0.0, 1.0], cr=True, cells=[[4.0], [1.0], [-2.0]])
     yield dict(objs=[q, tl], steps=[dict(op='downsample', i=1, f=3, inplace=False), dict(op='nblast', fn='nblast', q=[0], t=[2], cfg=cfg)],
@@ -551,10 +538,13 @@ def case_smart(ctx, case):
     except Exception as e:   # noqa
         ctx.oracle(False, f'nblast_smart raised {type(e).__name__}: {str(e)[:160]}'
                           + (' (Dotprops with lazy tangents: `downsample(10, inplace=False)` computes the tangents — and the kd-tree — '
-                             'on the full cloud and then masks the points without resetting `_tree`)' if lazy else ''),
-                   case, signature=SIG_SMART_LAZY if lazy and isinstance(e, IndexError) else None)
+                             'on the full cloud before it masks the points)' if lazy else ''), case)
         return
     if lazy:
+        # SVD tangents: values are not compared (float noise at bin boundaries); the call must work and label correctly
+        tset = qs if aba else ts
+        ctx.oracle(list(scr.index) == [c['id'] for c in qs] and list(scr.columns) == [c['id'] for c in tset],
+                   'nblast_smart (lazy tangents): labels do not follow the input', case)
         return
     tset = qs if aba else ts
     m = np.asarray(mask.values if hasattr(mask, 'values') else mask, dtype=bool)
@@ -579,8 +569,8 @@ def case_smart(ctx, case):
         bad = [(i, j) for i, row in enumerate(exp) for j, e in enumerate(row) if e != 'E' and (e == 'T') != bool(m[i, j])]
         frac = float(thr) != int(thr)
         ctx.oracle(not bad, f"nblast_smart(criterion='score', t={thr}): {len(bad)} pair(s), e.g. {bad[:3]}, are selected for the full NBLAST "
-                            f"although their pre-NBLAST score is below t (or the other way round)" + (f": `t = int(t)` truncates the threshold to {int(thr)}" if frac else ''),
-                   case, signature=SIG_SMART_T if frac else None)
+                            f"although their pre-NBLAST score is below t (or the other way round)"
+                            + (f" — is the threshold truncated to {int(thr)}?" if frac else ''), case)
 
 
 def smart_witnesses():
@@ -590,9 +580,9 @@ def smart_witnesses():
     t1 = dict(id=7, pts=[[p[0], p[1] + 0.5, 0.0] for p in line], vect=vx, alpha=[1.0] * 25)
     t2 = dict(id=9, pts=[[p[0], p[1], 8.0] for p in line], vect=vx, alpha=[1.0] * 25)
     cfg = dict(mode='forward', normalized=True, use_alpha=False, limit_dist='auto')
-    # (b) a fractional threshold: the second target scores 0.27 < 0.5 in the pre-NBLAST but is refined all the same
+    # a fractional threshold (former finding, fixed 36d2f35): the second target scores 0.27 < 0.5 in the pre-NBLAST and must NOT be refined
     yield dict(q=[q], t=[t1, t2], table=dict(kind='auto'), criterion='score', thr=0.5, cfg=cfg, witness='float-t')
-    # (a) lazy tangents
+    # lazy tangents (former finding, fixed a981784)
     yield dict(q=[q], t=[t1], table=dict(kind='auto'), criterion='score', thr=-1000, cfg=cfg, lazy=3, witness='lazy')
 
 
